@@ -240,6 +240,19 @@ func (fr *Frame) checkFrame(ct *Contract, out *State, rr string, env *CEnv) {
 		return
 	}
 	if ms.all {
+		// `modifies everything preserves T`: the field heaps of T must be left as they were
+		for _, tn := range ct.Preserves {
+			for _, h := range sortedKeys(c.heapSorts) {
+				if !strings.HasPrefix(h, "F."+sanitize(tn)+".") {
+					continue
+				}
+				final := c.heapGet(out, h, c.heapSorts[h])
+				initial := c.heapGet(fr.entry, h, c.heapSorts[h])
+				if final != initial {
+					fr.oblige("frame", "preserves "+tn+": "+h+" unchanged", rr, eq(final, initial), fr.fn.Pos())
+				}
+			}
+		}
 		return
 	}
 	oldAlloc := c.heapGet(fr.entry, "alloc", allocSort)
